@@ -33,7 +33,7 @@ VALUE_KINDS = ["u64", "str", "sg", "fmt", "optnone", "optsome"]
 LEAF_KINDS = VALUE_KINDS + [k + "@" for k in VALUE_KINDS] + ["ignore", "ts"]
 
 BUDGET = {
-    "quick": {"small_total": 3, "small_bind": 2500, "sim_walks": 5000, "sim_bind": 2500, "chain_walks": 800, "chain_bind": 400,
+    "quick": {"small_total": 3, "small_bind": 1800, "sim_walks": 4000, "sim_bind": 1800, "chain_walks": 800, "chain_bind": 300,
               "bins": 12, "neg": True,
               "instr_depth": 7, "flex_depth": 5},
     "thorough": {"small_total": 4, "small_bind": 20000, "sim_walks": 12000, "sim_bind": 20000, "chain_walks": 2000,
